@@ -1,8 +1,9 @@
 (* Pinned statements for C07: compiled on every check run. A statement weakened in Props/ fails here. *)
 From Coq Require Import String.
 From TS Require Import Model.Str Model.Outcome Model.Unicode Model.Syntax Model.Attrs Model.Rename Model.Types Model.Parse.
+From TS Require Import Model.MultiFile Model.Lang.Common Model.Lang.Kotlin Model.Lang.Swift Model.Lang.Scala Model.Lang.Go.
 From TS Require Import Spec.TargetOsRule Spec.C03Spec Spec.C07Spec.
-From TS Require Proofs.FrontItems Proofs.C07.
+From TS Require Proofs.FrontItems Proofs.C07 Proofs.C07Back.
 From TS Require Props.C07.
 
 Goal forall t : ty, is_panic (parse_ty t) = false.
@@ -112,6 +113,75 @@ Goal Proofs.C07.field_names_of (Proofs.FrontItems.parse_leaf uc_exec Proofs.C07.
      (Proofs.C07.st1 [Proofs.C07.a_camel] (Proofs.C07.fld [] (201%N :: lit "toile_du_nord") Proofs.C07.t_u8))) = Some [201%N :: lit "toileDuNord"].
 Proof. exact Props.C07.C07_rename_22_nonascii_fixed. Qed.
 Print Assumptions Props.C07.C07_rename_22_nonascii_fixed.
+Goal forall (uc : unicode) (own : str) (t : use_tree), exists found, parse_import uc own t = Ok found.
+Proof. exact Props.C07.C07_use_import_total. Qed.
+Print Assumptions Props.C07.C07_use_import_total.
+Goal forall (uc : unicode) (tstr : str -> option ty) (T : list str) (own : str) (ign : list str)
+         (ho_file : list imported -> list imported) (f : file),
+    exists r, parse_file_multi uc tstr T own ign ho_file f = Ok r.
+Proof. exact Props.C07.C07_multi_file_front_end_total_partial. Qed.
+Print Assumptions Props.C07.C07_multi_file_front_end_total_partial.
+Goal forall (uc : unicode) (T ign : list str) (ho_file : list imported -> list imported) (ws : list ws_entry),
+    exists arrivals, parse_workspace uc T ign ho_file ws = Ok arrivals.
+Proof. exact Props.C07.C07_workspace_parse_total. Qed.
+Print Assumptions Props.C07.C07_workspace_parse_total.
+Goal parse_import uc_exec Proofs.C07Back.w_own (UName (lit "foo")) = Ok [] /\
+  parse_import uc_exec Proofs.C07Back.w_own (UGroup [UName (lit "a"); UName (lit "b")]) = Ok [] /\
+  parse_import uc_exec Proofs.C07Back.w_own UGlob = Ok [] /\
+  parse_import uc_exec Proofs.C07Back.w_own (UGroup [UGroup [UName (lit "Foo")]; UGlob; URename (lit "a") (lit "b")]) = Ok [].
+Proof. exact Props.C07.C07_visitors_401_fixed. Qed.
+Print Assumptions Props.C07.C07_visitors_401_fixed.
+Goal parse_import uc_exec Proofs.C07Back.w_own (UGroup [UPath (lit "a") (UName (lit "B")); UName (lit "c")]) = Ok [Proofs.C07Back.w_imp "a" "B"] /\
+  parse_import uc_exec Proofs.C07Back.w_own (UPath (lit "other_crate") (UGroup [UName (lit "Thing"); UPath (lit "sub") UGlob])) =
+    Ok [Proofs.C07Back.w_imp "other_crate" "*"; Proofs.C07Back.w_imp "other_crate" "Thing"].
+Proof. exact Props.C07.C07_visitors_401_fixed_keeps_paths. Qed.
+Print Assumptions Props.C07.C07_visitors_401_fixed_keeps_paths.
+Goal match parse_file_multi uc_exec Proofs.C07.no_tstr [] Proofs.C07Back.w_own [] (fun l => l) Proofs.C07Back.w_use_file with
+  | Ok (Some pd) => List.length (p_structs pd) = 1%nat /\ p_errors pd = [] /\ p_imports pd = []
+  | _ => False
+  end.
+Proof. exact Props.C07.C07_visitors_401_fixed_file. Qed.
+Print Assumptions Props.C07.C07_visitors_401_fixed_file.
+Goal forall (uc : unicode) (cfg : go_config) (custom : list str) (tag content : str) (sh : eshared) (s : go_state) ds s',
+    go_enum_decls_of uc cfg custom (EAlgebraic tag content sh) s = Ok (ds, s') ->
+    exists anon t, ds = anon ++ [GOTagged t] /\
+                   gt_short t = match original (eid sh) with [] => [] | c :: _ => u_lower uc c end.
+Proof. exact Props.C07.C07_go_receiver_value. Qed.
+Print Assumptions Props.C07.C07_go_receiver_value.
+Goal Proofs.C07Back.w_go_short (201%N :: lit "toile") = Some [233%N] /\
+  Proofs.C07Back.w_go_short (304%N :: lit "x") = Some [105%N; 775%N] /\
+  Proofs.C07Back.w_go_short (453%N :: lit "x") = Some [454%N] /\
+  Proofs.C07Back.w_go_short [20013%N] = Some [20013%N] /\
+  Proofs.C07Back.w_go_short (lit "Plain") = Some (lit "p") /\
+  Proofs.C07Back.w_go_short [] = Some [] /\
+  is_ok (go_generate uc_exec Proofs.C07Back.w_go_cfg (Proofs.C07Back.w_pd (Proofs.C07Back.w_tagged (201%N :: lit "toile")))) = true.
+Proof. exact Props.C07.C07_go_315_fixed. Qed.
+Print Assumptions Props.C07.C07_go_315_fixed.
+Goal forall (cfg : kt_config) (c : rconst), kt_decl_of cfg (ItConst c) = Err (EConstUnsupported (original (cid c))).
+Proof. exact Props.C07.C07_kotlin_const_is_error. Qed.
+Print Assumptions Props.C07.C07_kotlin_const_is_error.
+Goal forall (uc : unicode) (cfg : sw_config) (c : rconst) (st : sw_state),
+    sw_decl_of uc cfg (ItConst c) st = Err (EConstUnsupported (original (cid c))).
+Proof. exact Props.C07.C07_swift_const_is_error. Qed.
+Print Assumptions Props.C07.C07_swift_const_is_error.
+Goal kt_generate uc_exec Proofs.C07Back.w_kt_cfg Proofs.C07Back.w_const_pd = Err (EConstUnsupported (lit "X")).
+Proof. exact Props.C07.C07_kotlin_183_fixed. Qed.
+Print Assumptions Props.C07.C07_kotlin_183_fixed.
+Goal sw_generate uc_exec Proofs.C07Back.w_sw_cfg Proofs.C07Back.w_const_pd = Err (EConstUnsupported (lit "X")).
+Proof. exact Props.C07.C07_swift_268_fixed. Qed.
+Print Assumptions Props.C07.C07_swift_268_fixed.
+Goal forall cfg : sc_config,
+    (sc_package cfg = [] -> sc_begin_file cfg = Err EPackageRequired) /\
+    (sc_package cfg <> [] -> is_ok (sc_begin_file cfg) = true).
+Proof. exact Props.C07.C07_scala_package_error_iff. Qed.
+Print Assumptions Props.C07.C07_scala_package_error_iff.
+Goal forall (uc : unicode) (cfg : sc_config) (pd : parsed), sc_package cfg = [] -> sc_generate uc cfg pd = Err EPackageRequired.
+Proof. exact Props.C07.C07_scala_no_package_is_error. Qed.
+Print Assumptions Props.C07.C07_scala_no_package_is_error.
+Goal sc_generate uc_exec (Proofs.C07Back.w_sc_cfg []) Proofs.C07Back.w_struct_pd = Err EPackageRequired /\
+  is_ok (sc_generate uc_exec (Proofs.C07Back.w_sc_cfg (lit "p")) Proofs.C07Back.w_struct_pd) = true.
+Proof. exact Props.C07.C07_scala_131_fixed. Qed.
+Print Assumptions Props.C07.C07_scala_131_fixed.
 Goal List.length (expected_leaves [] Proofs.C07.nonvacuous_file) = 8%nat /\
   front_incomplete_leaves uc_exec Proofs.C07.no_tstr [] Proofs.C07.nonvacuous_file = 3%nat /\
   match parse_file uc_exec Proofs.C07.no_tstr [] Proofs.C07.nonvacuous_file with
